@@ -142,7 +142,10 @@ func BoundaryFloats(is32 bool) []float64 {
 	for _, v := range set {
 		out = append(out, v)
 	}
-	sort.Float64s(out)
+	// -0 before +0: the two compare equal, and the order must not depend on map iteration
+	sort.Slice(out, func(i, j int) bool {
+		return out[i] < out[j] || (out[i] == out[j] && math.Signbit(out[i]) && !math.Signbit(out[j]))
+	})
 	return out
 }
 
